@@ -92,6 +92,19 @@ def c_ir(n: Dict[str, Any], src_of: Optional[Callable[[Dict[str, Any]], str]] = 
             return ('bool', 'and', [a, b])
         if op == '||':
             return ('bool', 'or', [a, b])
+        # constant sub-expressions (expanded macros such as (1 << PAGE_BITS)) are folded
+        if a[0] == 'num' and b[0] == 'num' and op in ('+', '-', '*', '<<', '>>', '&', '|', '^'):
+            try:
+                v = {'+': a[1] + b[1], '-': a[1] - b[1], '*': a[1] * b[1], '<<': a[1] << b[1] if 0 <= b[1] < 128 else None,
+                     '>>': a[1] >> b[1] if b[1] >= 0 else None, '&': a[1] & b[1], '|': a[1] | b[1], '^': a[1] ^ b[1]}[op]
+            except Exception:
+                v = None
+            if v is not None:
+                return ('num', v)
+        # on unsigned operands, x / 2^k is x >> k and x % 2^k is x & (2^k - 1): one spelling for the page arithmetic
+        qt = n.get('type', {}).get('qualType', '')
+        if op in ('/', '%') and b[0] == 'num' and b[1] > 0 and b[1] & (b[1] - 1) == 0 and ('unsigned' in qt or 'uint' in qt or 'size_t' in qt):
+            return ('bin', '>>', a, ('num', b[1].bit_length() - 1)) if op == '/' else ('bin', '&', a, ('num', b[1] - 1))
         return ('bin', op, a, b)
     if k == 'CompoundAssignOperator':
         return ('bin', n.get('opcode'), c_ir(n['inner'][0], src_of), c_ir(n['inner'][1], src_of))
